@@ -85,3 +85,9 @@ claim("C11",
       "Fresh-interpreter references are computed once per run, one subprocess per problem. Every violation found in a worker is re-executed in a fresh interpreter by the engine and reported either way.",
       "explicit-state BFS over call histories on the real library with a fresh-process differential oracle and a module-state digest",
       "DESIGN.md section 4 C11")
+
+claim("C12",
+      "For every base problem (lattice stream multisets of <=3 streams x <=2 zones x {no utilities, a 4-level ladder with distinct levels}) ALL twins of the transformation group are generated and run through the service: every permutation of the stream list, reversed utility list, the series split of every stream at every interior lattice point, a 1/4+3/4 parallel split of every stream, every renaming/reordering of the zones from a 3-name alphabet, translations {+37.5,-100,+1000}, duty scalings {x0.25,x3,x100}, mirroring of the temperature axis with hot/cold swap; the pairwise relation is checked on every record (Qh, Qc, Qr, utility duties by name, pinch temperatures) and on the graph data (curves compared as polylines, series by series, within the 0.01 display tolerance).",
+      "Graph data are not compared under mirroring (the enthalpy offsets of the curves are not related by a simple map).",
+      "bounded-exhaustive metamorphic exploration: all generators of the transformation group applied to all base problems",
+      "DESIGN.md section 4 C12")
